@@ -220,4 +220,12 @@ theorem mc_erase {m : AMap.T Bytes Bytes} (hm : Canon (cdMC E.N) m) {k : OutPoin
     Canon (cdMC E.N) (AMap.erase m (canonicalOutPoint k)) :=
   ⟨abs_erase (cdMC_laws E.N) hm (k := k) hk, canon_erase hm _⟩
 
+-- ------------------------------------------------------------------ bucket `ws`
+
+theorem ws_get {m : AMap.T Bytes Bytes} (hm : Canon (cdWS E.N) m) {k : Bytes} (hk : k.length = 42) :
+    (AMap.get m k = none ∧ AMap.get (absBucket (cdWS E.N) m) (E.N.wal k) = none) ∨
+    ∃ v : Nat × Nat, (v.1 < 256 ^ 8 ∧ v.2 < 256) ∧ AMap.get m k = some (valueWalletStatus ⟨[], v.1, v.2⟩) ∧
+      AMap.get (absBucket (cdWS E.N) m) (E.N.wal k) = some (nmStatus v) :=
+  abs_get_cases (cdWS_laws E.N) hm (k := k) hk
+
 end MW.LedBytes
